@@ -11,12 +11,14 @@
   shape `plainList`, and every subset shares the labels and has as many values as labels.
 
   What a later subset needs besides: the renderers read the delayed replication count of subset `j` from the
-  values of subset `j`.  The coder only checks that the NON-MISSING counts agree (`minmaxInt`), so a later subset
-  may hold a missing count where subset 0 holds `n`; `Spec.sameCountsList` (decidable, the hypothesis C16 uses for
-  compressed data too) says that it does not.
+  values of subset `j`.  BEFORE the repair of finding F24 the coder only checked that the NON-MISSING counts agree
+  (`minmaxInt`, `decFactorCLax`), so a later subset could hold a missing count where subset 0 holds `n`;
+  `Spec.sameCountsList` (decidable, the hypothesis C16 uses for compressed data too) says that it does not.  Since the
+  repair (`sameAsFirst`) it is derivable for decoded output: Lemmas/CompFactors.lean, Props/C09Factors.lean.
 -/
 import BufrModel.Lemmas.WireSim
 import BufrModel.Lemmas.LinkSpecComp
+import BufrModel.Lemmas.CompFactors
 import BufrModel.Spec.EvalPath
 namespace Bufr.C09
 open Bufr
@@ -98,31 +100,7 @@ theorem pushOne_decPrimsC : PushOne decPrimsC where
   factor := by
     intro s v l h hl
     change decFactorC s = .ok v at h
-    unfold decFactorC at h
-    cases hv : s.vals with
-    | nil => rw [hv] at hl; cases hl
-    | cons l0 r =>
-      rw [hv] at h hl
-      injection hl with hl
-      subst hl
-      simp only [bind, Except.bind] at h
-      split at h
-      · cases h
-      · next heads hm =>
-        obtain ⟨h0, hs, rfl, hh⟩ := mapM_headVal_cons hm
-        split at h
-        · cases h
-        · split at h
-          · split at h
-            · cases h
-            · unfold headVal at h
-              injection h with h
-              subst h
-              exact hh
-          · unfold headVal at h
-            injection h with h
-            subst h
-            exact hh
+    exact (decFactorC_ok h).2 l (List.mem_of_mem_head? hl)
 
 /-- for a quiet template the wiring pass, run on the flat lists of subset 0, follows every successful COMPRESSED
     decode to its end; all subsets share labels and links and have as many values as labels -/
